@@ -94,6 +94,7 @@ def kinds_for(oid):
 def playback(harness):
     """Run one harness with Kani's concrete playback; returns [(description, [ints])] for failed assertions."""
     dst, _ = kunit.scratch_repo()
+    kunit.ensure_injected(harness.file)
     cmd = ["cargo", "kani", "-Z", "function-contracts", "-Z", "stubbing", "-Z", "concrete-playback", "--concrete-playback=print", "--exact", "--harness", kunit.full_name(harness)]
     cmd += kunit.GROUP_FLAGS.get(harness.group, [])
     try:
